@@ -31,6 +31,10 @@ func runC09(c *an.Ctx) {
 	c.As(map[string]string{"R08f": "R09f"}, func() { r08f(c) })
 	r09g(c)
 	whoMayCancel(c, "R09h")
+	// round 7
+	r09j(c)
+	c.As(map[string]string{"R15f": "R09i"}, func() { r15f(c) })
+	r09k(c)
 }
 
 // R09g: a hook task counts as failed whenever it did not exit with code 0 - also when it was terminated by a signal
